@@ -4,6 +4,7 @@ CONSTANTS
   WithQueries = TRUE
   WithMixed = TRUE
   HeavyLaws = TRUE
+  SlimGates = FALSE
   Mutant <- NoMutant
 VIEW View
 INVARIANT GroupInv
